@@ -32,6 +32,37 @@ fn is_root_name(n: &str) -> bool {
     b.len() > 5 && b[0] == b'c' && b[1].is_ascii_digit() && b[2].is_ascii_digit() && &n[3..5] == "__"
 }
 
+/// Roots inside the analysed crate itself that cannot be named from outside (private serde visitors, derive output).
+fn summarise_local(tcx: TyCtxt<'_>, dir: &str) {
+    let pats = std::env::var("MIRSUM_LOCAL").unwrap_or_default();
+    let pats: Vec<&str> = pats.split(',').filter(|s| !s.is_empty()).collect();
+    let mut parts = vec![];
+    let mut roots = vec![];
+    for ldid in tcx.hir_body_owners() {
+        let did = ldid.to_def_id();
+        if !matches!(tcx.def_kind(did), DefKind::Fn | DefKind::AssocFn) {
+            continue;
+        }
+        let path = tcx.def_path_str(did);
+        if pats.iter().any(|p| path.contains(p)) {
+            roots.push((path, did));
+        }
+    }
+    roots.sort_by(|a, b| a.0.cmp(&b.0));
+    for (name, did) in roots {
+        let r = std::panic::catch_unwind(std::panic::AssertUnwindSafe(|| interp::summarise_root(tcx, did)));
+        match r {
+            Ok(s) => parts.push(format!("{}:{}", terms::jstr(&name), s)),
+            Err(_) => parts.push(format!("{}:{{\"root\":{},\"out\":{{\"k\":\"top\",\"why\":\"engine panic\"}},\"args\":[],\"inlined\":[],\"models\":[],\"uninterp\":[]}}", terms::jstr(&name), terms::jstr(&name))),
+        }
+    }
+    let s = format!("{{\"roots\":{{\n{}\n}},\n\"terms\":{}}}\n", parts.join(",\n"), terms::dump_table());
+    let path = format!("{}/local.json", dir);
+    let tmp = format!("{}.tmp", path);
+    std::fs::File::create(&tmp).and_then(|mut f| f.write_all(s.as_bytes())).expect("write local");
+    std::fs::rename(&tmp, &path).expect("rename local");
+}
+
 fn summarise_harness(tcx: TyCtxt<'_>) {
     let Some(dir) = out_dir() else { return };
     let filter = std::env::var("MIRSUM_ROOTS").unwrap_or_default();
@@ -83,6 +114,9 @@ impl rustc_driver::Callbacks for Cb {
                 if let Some(dir) = out_dir() {
                     if std::env::var("MIRSUM_INVENTORY").is_ok() {
                         inventory::write_inventory(tcx, &dir);
+                    }
+                    if std::env::var("MIRSUM_LOCAL").is_ok() {
+                        summarise_local(tcx, &dir);
                     }
                 }
             }
